@@ -18,7 +18,7 @@ RULE = ("'history': the same continuum and dissimilarity OBJECTS are re-evaluate
 ASSUMPTIONS = ["membership is three-valued within 1e-5 relative of the threshold (float32 sums vs float64 reference)",
                "valid_alignments(continuum) is the public observation point; index len(units) denotes the empty unit (documented in the code)"]
 
-BOUNDARIES = [10000, 15000, 22500, 33750]
+BOUNDARIES = [10000, 15000, 20000, 22500, 30000, 33750]   # growth sequence of the buffers and plain multiples of the chunk
 
 
 def build_boundary(case):
@@ -150,7 +150,7 @@ def boundary_cases(draw, uniform=False):
         target = draw(st.integers(9000, 36000))
     else:
         b = draw(st.sampled_from(BOUNDARIES))
-        target = b - 1 + draw(st.integers(-12, 12))   # T + 1 (with the all-empty tuple) hits b +- 12
+        target = b - 1 + draw(st.one_of(st.sampled_from([0, 0, -1, 1]), st.integers(-12, 12)))   # T + 1 (with the all-empty tuple) hits b +- 12, often exactly
     # choose block sizes with prod(k+1) - 1 <= target, remainder as far units (bounded)
     if n == 2:
         a0 = draw(st.integers(90, 180))
